@@ -368,7 +368,8 @@ class Harness:
                 # the documented convenience: a fresh StreamInformation() owns a fresh 'default' stream (seed 10)
                 from pydsol.core.streams import StreamInformation
                 self.streams[sp["name"]] = StreamInformation().get_stream("default")
-        self.dists = {}
+        if self.experiment is None or not hasattr(self, "dists"):
+            self.dists = {}         # (experiment style keeps its distribution objects for all replications)
         self.stats = {}
         self.producers = {}
         if not hasattr(self, "etypes"):
@@ -609,6 +610,8 @@ class Harness:
     def update_seeds(self, replication_nr):
         """what an experiment driver does between replications"""
         self.experiment["updater"].update_seeds(self.experiment["info"].get_streams(), replication_nr)
+        for (sname, _, _), d in getattr(self, "dists", {}).items():
+            d.stream = self.experiment["info"].get_stream(sname)      # long-lived distributions are handed their (re-seeded) stream again
 
     def reset_logs(self):
         for lst in (self.hlog, self.slog, self.nlog, self.timeline, self.published):
